@@ -58,6 +58,6 @@ theorem gen_eq_InstreamFineSediment_real (p : InstreamFineSediment.Params ℝ) (
 theorem gen_eq_ClimateVariables_real (elevation t rh : ℝ) :
     climateVariables.step elevation t rh =
       (let r := Climate.sample (Climate.barometricPressure elevation) t rh; (r.vaporPressure, r.dewPoint, r.wetBulb, r.deltaT)) :=
-  (gen_eq_ClimateVariables natZero_real elevation 0 t rh 0 0 0 0).2.2.2.2.2.2.2.2
+  (gen_eq_ClimateVariables natZero_real elevation t rh).2
 
 end OW.Props.GenTie
